@@ -277,6 +277,10 @@ Apply(c, e, step) ==
     [] e.a = "reset"    -> ApplyReset(m, e, step)
     [] e.a = "get"      -> ApplyGet(m, e, obj, step)
     [] e.a = "dt_evaluate" -> ApplyDtEvaluate(m, e, step)
+    \* set_var_io_type() and parse() again on an object that was not fed online yet (C06): the predicates follow the new declarations
+    [] e.a = "config" -> IF "io" \in DOMAIN e /\ m.phase \in {"parsed", "offline"}
+                         THEN R([m EXCEPT !.cfg = [m.cfg EXCEPT !.M = [sem |-> m.cfg.M.sem, io |-> e.io]]], ExcClass(TRUE, e, "config.exc", step), 0)
+                         ELSE R([m EXCEPT !.dead = TRUE], Ok, 0)
 
 \* relations between objects at the end of a case
 \* the instants at which two step functions can differ: their time-stamps and the instants just after them
